@@ -160,10 +160,22 @@ Definition er_pinned_miss : list ev :=
   [ELock "mut"; ERead "cache"; EWrite "cache"; EUnlock "mut"; ERead "cache"; EReturn].
 Definition pinned_exec_reader_paths : list (list ev) := [er_pinned_hit; er_pinned_miss; er_err].
 
-(* the complete structural criterion checked against the regenerated table *)
-Definition c13_sites_ok (t : site_table) : bool :=
-  table_ok t &&
+(* calls made outside the critical section (ReaderExecutor after the Unlock) are not part of the
+   protocol: they are erased before the comparison (inside the critical section a call is rejected
+   by [disciplined] anyway) *)
+Definition strip_calls (p : list ev) : list ev :=
+  filter (fun e => match e with ECall _ => false | _ => true end) p.
+
+(* the complete structural criterion checked against the regenerated table: every path of every
+   listed function follows the discipline, and ExecReader has exactly the paths of the model *)
+Definition exec_reader_shape (t : site_table) : bool :=
   match lookup_row "ExecReader" t with
-  | Some ps => same_paths ps exec_reader_paths
+  | Some ps => same_paths (map strip_calls ps) exec_reader_paths
   | None => false
   end.
+
+Definition c13_sites_ok (t : site_table) : bool := table_ok t && exec_reader_shape t.
+
+(* for the report: the (function, path) pairs that fail *)
+Definition c13_offenders (t : site_table) : list (string * list ev) :=
+  flat_map (fun r => map (fun p => (fst r, p)) (filter (fun p => negb (path_ok (fst r) p)) (snd r))) t.
